@@ -350,19 +350,40 @@ def ExtOk : Ext → Prop
       es ≠ [] ∧ (∀ e ∈ es, NameEntryOk e) ∧ (es.map (·.1)).Nodup ∧ (encNameList es).length + 2 < 65536
   | .other t b => t ≠ 0 ∧ t < 65536 ∧ b.length < 65536
 
+/-- The optional extension block: every extension well-formed, extension types pairwise distinct, the whole
+block fits its 16-bit length. -/
+def ExtsOk : Option (List Ext) → Prop
+  | none => True
+  | some es => (∀ e ∈ es, ExtOk e) ∧ (es.map Ext.typ).Nodup ∧ (encExts es).length < 65536
+
 /-- Well-formed per RFC 5246 §7.4.1.2 / RFC 6066 §3 / RFC 8446 §4.1.2 (and accepted by crypto/tls):
-32-byte random, session id ≤ 32, even cipher-suite vector that fits 16 bits, compression methods fit 8 bits,
+32-byte random, session id ≤ 32, cipher-suite vector that fits 16 bits, compression methods fit 8 bits,
 extension types pairwise distinct, every extension body and the whole block fit 16 bits. -/
 structure WellFormed (h : Hello) : Prop where
   random : h.random.length = 32
   sessionId : h.sessionId.length ≤ 32
   ciphers : 2 * h.cipherSuites.length < 65536
   compression : h.compressionMethods.length < 256
-  exts : ∀ es, h.extensions = some es →
-    (∀ e ∈ es, ExtOk e) ∧ (es.map Ext.typ).Nodup ∧ (encExts es).length < 65536
+  exts : ExtsOk h.extensions
+
+instance : DecidablePred NameEntryOk := fun e => by unfold NameEntryOk; exact inferInstance
+
+instance : DecidablePred ExtOk := fun e => by
+  cases e <;> unfold ExtOk <;> exact inferInstance
+
+instance : DecidablePred ExtsOk := fun o => by
+  cases o <;> unfold ExtsOk <;> exact inferInstance
+
+instance (h : Hello) : Decidable (WellFormed h) :=
+  decidable_of_iff
+    (h.random.length = 32 ∧ h.sessionId.length ≤ 32 ∧ 2 * h.cipherSuites.length < 65536 ∧
+      h.compressionMethods.length < 256 ∧ ExtsOk h.extensions)
+    ⟨fun ⟨a, b, c, d, e⟩ => ⟨a, b, c, d, e⟩, fun w => ⟨w.random, w.sessionId, w.ciphers, w.compression, w.exts⟩⟩
 
 /-- The hello fits one TLS record. -/
 def FitsRecord (h : Hello) : Prop := (encode h).length ≤ maxRecordLen
+
+instance (h : Hello) : Decidable (FitsRecord h) := by unfold FitsRecord; exact inferInstance
 
 /-- Offset (in the handshake message) just after the compression methods. -/
 def cutAfterCompression (h : Hello) : Nat :=
